@@ -453,7 +453,7 @@ class Path(parent.Geometry):
 
         if transform.shape != (dimension + 1, dimension + 1):
             raise ValueError("transform is incorrect shape!")
-        elif np.abs(transform - np.eye(dimension + 1)).max() < 1e-8:
+        elif np.array_equal(transform, np.eye(dimension + 1)):
             # if we've been passed an identity matrix do nothing
             return self
 
